@@ -9,6 +9,7 @@ def endStr : End → String
 
 def runCase (j : Json) : Except String Json := do
   let c ← j.getObjVal? "case"
+  if (jopt c "timed").isSome then throw "unmodelled: scenarios in real time (the model has no clock)"
   let script ← (← jarr c "script").toList.mapM fun s => do pure (fromHex (← s.getStr?))
   let eof := match jopt c "eof" with | some (.bool b) => b | _ => true
   let (outs, e) := run EchoApp.app (script.length * 4 + (script.map List.length).sum / 8 + 16) ⟨none, 0⟩ ⟨script, eof⟩
